@@ -55,6 +55,19 @@ pub fn main(args: &[String]) -> i32 {
                             let e = t2.next_u32(&mut script, 4000); if e.is_none() { out = format!("skipped: stuck timer at call {}", i); break; }
                             (e.map(|v| format!("{:#x}", v)), format!("{:#x}", rng.clone().next_u32()))
                         }
+                        "clonefrom_next_u32" => {
+                            // b = fresh clone; b.next_u32() leaves b with a pending half; then b.clone_from(&rng): Clone::clone_from is
+                            // `*b = rng.clone()` unless overridden, so b's next output is a fresh collection and nothing is pending
+                            let mut b = rng.clone();
+                            let mut tb = crate::jitter_ref::RefJitter { data: twin.data, rounds: twin.rounds, half: false };
+                            let e0 = tb.next_u32(&mut script, 4000); if e0.is_none() { out = format!("skipped: stuck timer at call {}", i); break; }
+                            let r0 = b.next_u32();
+                            if e0 != Some(r0) { out = format!("MISMATCH at call {} ({}): clone's first output {:#x} expected {:#x}", i, c, r0, e0.unwrap()); break; }
+                            b.clone_from(&rng);
+                            let mut t2 = crate::jitter_ref::RefJitter { data: twin.data, rounds: twin.rounds, half: false };
+                            let e = t2.next_u32(&mut script, 4000); if e.is_none() { out = format!("skipped: stuck timer at call {}", i); break; }
+                            (e.map(|v| format!("{:#x}", v)), format!("{:#x}", b.next_u32()))
+                        }
                         f if f.starts_with("fill:") => {
                             let n: usize = f[5..].parse().unwrap();
                             let e = twin.fill(n, &mut script, 4000); if e.is_none() { out = format!("skipped: stuck timer at call {}", i); break; }
